@@ -68,6 +68,17 @@ def resolve_callee(prog, f, call, local_defs=None):
             g = prog.lookup(r, fn.attr)
             if g is not None and g.kind in ("classmethod", "staticmethod"):
                 return g, g.kind != "staticmethod"
+        # a module-level record instance used as a strategy object: `_IMAGE_NAMES = _Numbered("image", True)` ... `_IMAGE_NAMES.next(...)`
+        b = getattr(f.module, "assigns", {}).get(base) if hasattr(f, "module") else None
+        if isinstance(b, ast.Call):
+            from . import records as R_
+
+            rc = R_.record_class(prog, f.module, b.func)
+            if rc is not None:
+                g = prog.lookup(rc, fn.attr)
+                if g is not None and g.kind in ("method", "classmethod", "staticmethod") and not (
+                        g.kind == "method" and g.node.decorator_list):
+                    return g, g.kind != "staticmethod"
     return None
 
 
@@ -1062,6 +1073,11 @@ def _hoist_helper_calls(prog, owner, stmts, local_defs, counter, local_only, top
                 e.values[0] = strict(e.values[0], False)
             elif isinstance(e, ast.IfExp):
                 e.test = strict(e.test, False)
+            elif isinstance(e, ast.JoinedStr):
+                # an f-string evaluates its fields left to right, unconditionally
+                for v_ in e.values:
+                    if isinstance(v_, ast.FormattedValue):
+                        v_.value = strict(v_.value, False)
             return e
 
         st.value = strict(st.value, isinstance(st, (ast.Return, ast.Expr)) or (
